@@ -606,7 +606,13 @@ async fn run(case: &Case, ctx: &mut Ctx) -> Option<Violation> {
                     let n_hi = tokio_since_start / (300 * S);
                     let n_lo = before.saturating_sub(MS) / (300 * S);
                     if n_hi > n_lo || first_tick_pending {
-                        first_tick_pending = false;
+                        // tokio rounds timer deadlines up to its 1 ms wheel granularity, so the interval's
+                        // "immediate" first tick fires at construction only if that instant sits on a
+                        // millisecond boundary, and otherwise in whichever advance crosses the next one:
+                        // it may fire in any advance until 1 ms (plus the rounding slack) has accumulated
+                        if tokio_since_start >= 2 * MS {
+                            first_tick_pending = false;
+                        }
                         let present = r.m.iter().filter(|km| km.cur.is_some()).count();
                         for km in r.m.iter_mut() {
                             if let Some(e) = km.cur.as_mut() {
